@@ -181,6 +181,32 @@ def _fresh_range(v, m=None, cls=None, depth=0):
     return False
 
 
+def r04k(ctx):
+    m = ctx.model
+    ctx.rule("R04k", "the search never reports an interval outside the one its caller supplied: IterativeTighteningSearch.bounds() "
+                     "starts at initial_bounds, so once candidates arrive both ends must stay inside it - the lower end is raised to "
+                     "initial_bounds.lower_bound, the upper end capped at initial_bounds.upper_bound - otherwise the first step widens "
+                     "the interval while reporting progress")
+    q = m.need_class("IterativeTighteningSearch")
+    f = m.method(q, "bounds")
+    txt = ast.unparse(f.node).replace(" ", "")
+    rets = [r for r in walk_no_nested(f.node) if isinstance(r, ast.Return) and isinstance(r.value, ast.Call) and call_name(r.value) == "Range" and len(r.value.args) == 2]
+    ctx.floor("R04k", len(rets), 1, "computed intervals returned by IterativeTighteningSearch.bounds")
+    from ..astx import inline_locals
+    for r in rets:
+        lo, hi = (ast.unparse(inline_locals(f.node, a)).replace(" ", "") for a in r.value.args)
+        low_ok = "<self.initial_bounds.lower_bound" in txt or ("max(" in lo and "self.initial_bounds.lower_bound" in lo)
+        high_ok = "min(" in hi and "self.initial_bounds.upper_bound" in hi or ">self.initial_bounds.upper_bound" in txt
+        for end, ok in (("lower", low_ok), ("upper", high_ok)):
+            if ok:
+                ctx.proved("R04k", f.file, "IterativeTighteningSearch.bounds", r, f"{end} end inside initial bounds", f"the {end} end is clamped to initial_bounds")
+            else:
+                ctx.violation("R04k", f.file, "IterativeTighteningSearch.bounds", r, f"{end} end inside initial bounds",
+                              f"`{norm(r, 80)}`: the {end} end of the interval is taken from the candidates without clamping it to "
+                              f"initial_bounds.{end}_bound: a search given [0, 12] reports [6, 20] after its first step (which answers "
+                              f"True), i.e. the interval a caller sees widens")
+
+
 WIDE_DTYPES = {"uint64", "int64", "object", "object_", "float64", "longlong", "ulonglong"}
 
 
@@ -512,6 +538,7 @@ def run(ctx):
     r04h(ctx)
     r04i(ctx)
     r04j(ctx)
+    r04k(ctx)
     from .c02 import r02f
     r02f(ctx)     # the size-derived cap of compound edits is an upper bound only if no node has size 0
     from .c05 import r05c
